@@ -98,6 +98,10 @@ def run(ctx):
             # whatever the seed (and small enough to be enumerated in full): passwords that begin with spaces, a keyboard walk at the
             # end of a password behind exactly one other character, double quotes inside and at the end of a terminal, a comma
             pws = ['x1qaz', '!qwer', 'rock"n"roll', 'abc"', '"', 'a,b', 'Summer19', 'x1qaz', 'tiger', 'Tiger', '12345', 'tiger12']
+            enc = 'utf-8'
+            if i == 4:
+                # ... cased symbols that are not letters in front of / behind letter runs, context strings in other capitalisations
+                pws = gen_passwords.CASED_SYMBOL_ONCE + gen_passwords.CONTEXT_CASE_CORPUS + ['tiger', 'x1qaz']
         if counted:
             pws = [' dragon77', '  letmein', ' dragon77'] + pws
             pws = sorted(pws)
@@ -116,8 +120,10 @@ def run(ctx):
         size = language_size(pcfg, ctx.scale(60000, 400000))
         if size is None:
             dist['skipped_too_large'] += 1
+            dist.setdefault('skipped_lists', []).append(i)
             continue
         cases += 1
+        dist.setdefault('evaluated_lists', []).append(i)
         for k, v in (('encoding', enc), ('coverage', str(cov)), ('ngram', str(ngram))):
             dist[k][v] = dist[k].get(v, 0) + 1
         # the training passwords are the ones of the generated list (not what the reader made of them): a reader that alters or drops
